@@ -61,7 +61,7 @@ theorem resend_eq_run (sk : Sys) (c' : Nat) (t : Time) (id₁ id : Val) (a σ : 
       (sk.run [.restart t, .connect c', .recv c' t id₁ (.bind (some a) (some σ) impl ver), .recv c' t id cmd']).1 :=
   rfl
 
-theorem resend_ready {sk : Sys} (hS : sk.Synced) (hc : sk.conns = []) (c' : Nat) (t : Time) (id₁ : Val)
+theorem resend_ready {sk : Sys} (hS : sk.Synced) (c' : Nat) (t : Time) (id₁ : Val)
     (a σ : String) (impl ver : Option String) :
     (sk.step (.restart t)).db = sk.db ∧ (sk.step (.restart t)).Synced ∧
     (sk.step (.restart t)).conns = [] ∧ (sk.step (.restart t)).cfg = sk.cfg ∧
@@ -217,13 +217,13 @@ theorem releaseNameplate_db (s : Sys) (a n σ : String) (t : Time) :
 theorem releaseNameplate_commit_points {s : Sys} (a n σ : String) (t : Time) {P : Chan → Prop}
     (hA : DbAll P s) (h1 : P (s.db.releaseMid a n σ)) (h2 : P (s.db.releaseDb a n σ)) :
     DbAll P (s.releaseNameplate a n σ t).1 := by
-  apply releaseNameplate_dbAll (s := s) (app := a) (name := n) (side := σ) (t := t)
-    (b := (s.releaseNameplate a n σ t).2) rfl hA
-  · intro np hnp
-    unfold Chan.releaseMid at h1
-    rw [hnp] at h1
-    exact h1
-  · rw [releaseNameplate_db]; exact h2
+  have h2' : P (s.releaseNameplate a n σ t).1.db := by rw [releaseNameplate_db]; exact h2
+  refine releaseNameplate_dbAll (s := s) (s1 := (s.releaseNameplate a n σ t).1) (app := a) (name := n) (side := σ)
+    (t := t) (b := (s.releaseNameplate a n σ t).2) rfl hA ?_ h2'
+  intro np hnp
+  unfold Chan.releaseMid at h1
+  rw [hnp] at h1
+  exact h1
 
 end Sys
 
@@ -231,6 +231,16 @@ namespace Chan
 
 theorem findNameplate_unclaim (d : Chan) (i : Nat) (σ a n : String) :
     (d.unclaim i σ).findNameplate a n = d.findNameplate a n := rfl
+
+theorem unclaim_eq_self_of_none {d : Chan} {i : Nat} {σ : String} (h : d.findNpSide i σ = none) :
+    d.unclaim i σ = d := by
+  have e : d.npSides.map (fun r => if r.npid = i ∧ r.side = σ then { r with claimed := false } else r) = d.npSides := by
+    apply Chan.map_eq_self
+    intro r hr
+    simp only [findNpSide, List.find?_eq_none, decide_eq_true_eq] at h
+    simp [h r hr]
+  unfold unclaim
+  rw [e]
 
 /-- releasing again from the intermediate commit point completes the release -/
 theorem releaseDb_releaseMid (d : Chan) (a n σ : String) :
@@ -244,10 +254,9 @@ theorem releaseDb_releaseMid (d : Chan) (a n σ : String) :
     dsimp only
     rw [findNpSide_unclaim]
     cases hs : d.findNpSide np.id σ with
-    | none => simp
+    | none => simp [unclaim_eq_self_of_none hs]
     | some r0 =>
       simp only [Option.map_some, unclaim_unclaim]
-      rfl
 
 /-- releasing again from the final database changes nothing (needs the uniqueness of `(app, name)`) -/
 theorem releaseDb_releaseDb {d : Chan} (hP : d.PInv) (a n σ : String) :
@@ -281,8 +290,100 @@ theorem releaseDb_releaseDb {d : Chan} (hP : d.PInv) (a n σ : String) :
           simp only [decide_eq_true_eq] at hk
           have : r = np := hP.np_eq_of_key hr hnpm (ha.trans hk.1.symm) (hn.trans hk.2.symm)
           exact hne (by rw [this])
-        unfold releaseDb
-        rw [hgone]
+        have hid : ∀ d' : Chan, d'.findNameplate a n = none → d'.releaseDb a n σ = d' := by
+          intro d' h'; unfold releaseDb; rw [h']
+        exact hid _ hgone
+
+/-! ### `close` re-run from its commit points -/
+
+/-- what `handle_close` does to the database on a connection without a handle: implicit
+    `open_mailbox`, then `Mailbox.close` -/
+def closeRun (d : Chan) (a m σ : String) (mood : Option String) (t : Time) : Chan :=
+  (d.openDb a m σ t).closeDb a m σ mood
+
+theorem closeRun_eq (d : Chan) (a m σ : String) (mood : Option String) (t : Time) :
+    d.closeRun a m σ mood t =
+      if d.OtherOpen m σ then (d.openDb a m σ t).closeSide m σ mood else d.dropMailbox a m := by
+  unfold closeRun closeDb
+  rw [if_pos ⟨openDb_hasBox _ _ _ _ _, openDb_findMbSide_ne_none _ _ _ _ _⟩]
+  by_cases h : d.OtherOpen m σ
+  · rw [if_pos ((otherOpen_openDb _ _ _ _ _).2 h), if_pos h]
+  · rw [if_neg (fun h' => h ((otherOpen_openDb _ _ _ _ _).1 h')), if_neg h, dropMailbox_openDb]
+
+theorem closeDb_of_box {d : Chan} {a m σ : String} {mood : Option String} (hb : d.HasBox a m)
+    (hs : d.findMbSide m σ ≠ none) :
+    d.closeDb a m σ mood = if d.OtherOpen m σ then d.closeSide m σ mood else d.dropMailbox a m := by
+  unfold closeDb; rw [if_pos ⟨hb, hs⟩]
+
+theorem dropMailbox_idem (d : Chan) (a m : String) : (d.dropMailbox a m).dropMailbox a m = d.dropMailbox a m := by
+  unfold dropMailbox
+  simp only [List.filter_filter, Bool.and_self]
+  congr 1
+  apply List.filter_congr
+  intro r _
+  simp
+  intro h x hx _
+  exact h x hx
+
+theorem dropMailbox_not_otherOpen (d : Chan) (a m σ : String) : ¬ (d.dropMailbox a m).OtherOpen m σ := by
+  rintro ⟨r, hr, hm, _⟩
+  exact ((mem_dropMailbox_mbSides d a m).1 hr).2 hm
+
+theorem touch_eq_self_of_noId {d : Chan} {m : String} (h : ∀ r ∈ d.mailboxes, r.id ≠ m) (t : Time) :
+    d.touch m t = d := touch_eq_self (fun r hr e => absurd e (h r hr))
+
+theorem dropMailbox_noId {d : Chan} (hids : d.mailboxes.Pairwise (fun a b => ¬ a.id = b.id)) {a m : String}
+    (hb : d.HasBox a m) : ∀ r ∈ (d.dropMailbox a m).mailboxes, r.id ≠ m := by
+  intro r hr e
+  obtain ⟨hr0, hne⟩ := (mem_dropMailbox_mailboxes d a m).1 hr
+  obtain ⟨b, hbm, hba, hbi⟩ := hb
+  have : r = b := eq_of_key_eq (·.id) hids hr0 hbm (e.trans hbi.symm)
+  exact hne ⟨this ▸ hba, e⟩
+
+/-- **the re-run `close` from every commit point of a `close` gives the final database, up to the
+    column `updated` of row `m`** (`pre`: the database at the entry of `Mailbox.close`) -/
+theorem closeRun_points {pre : Chan} (hids : pre.mailboxes.Pairwise (fun a b => ¬ a.id = b.id)) {a m σ : String}
+    (mood : Option String) (t : Time) (hb : pre.HasBox a m) (hs : pre.findMbSide m σ ≠ none) :
+    pre.closeRun a m σ mood t = (pre.closeDb a m σ mood).touch m t ∧
+    (pre.closeSide m σ mood).closeRun a m σ mood t = (pre.closeDb a m σ mood).touch m t ∧
+    (pre.closeDb a m σ mood).closeRun a m σ mood t = (pre.closeDb a m σ mood).touch m t := by
+  rw [closeDb_of_box hb hs]
+  have hb' : (pre.closeSide m σ mood).HasBox a m := hb
+  have hs' : (pre.closeSide m σ mood).findMbSide m σ ≠ none := closeSide_findMbSide_ne_none.2 hs
+  by_cases ho : pre.OtherOpen m σ
+  · rw [if_pos ho]
+    have k1 : pre.closeRun a m σ mood t = (pre.closeSide m σ mood).touch m t := by
+      rw [closeRun_eq, if_pos ho, openDb_eq_touch hids hb hs, closeSide_touch]
+    have k2 : (pre.closeSide m σ mood).closeRun a m σ mood t = (pre.closeSide m σ mood).touch m t := by
+      rw [closeRun_eq, if_pos (closeSide_otherOpen.2 ho), openDb_eq_touch (d := pre.closeSide m σ mood) hids hb' hs',
+        closeSide_touch, closeSide_eq_self (closeSide_closed pre m σ mood)]
+    exact ⟨k1, k2, k2⟩
+  · rw [if_neg ho]
+    have ht : (pre.dropMailbox a m).touch m t = pre.dropMailbox a m :=
+      touch_eq_self_of_noId (dropMailbox_noId hids hb) t
+    rw [ht]
+    refine ⟨?_, ?_, ?_⟩
+    · rw [closeRun_eq, if_neg ho]
+    · rw [closeRun_eq, if_neg (fun h => ho (closeSide_otherOpen.1 h)), dropMailbox_closeSide]
+    · rw [closeRun_eq, if_neg (dropMailbox_not_otherOpen pre a m σ), dropMailbox_idem]
+
+/-- the number of side rows the crowding check of the re-run sees, at each commit point -/
+theorem closeRun_sides {pre : Chan} {a m σ : String} (mood : Option String) (t : Time)
+    (hs : pre.findMbSide m σ ≠ none) :
+    ((pre.openDb a m σ t).mbSidesOf m).length = (pre.mbSidesOf m).length ∧
+    (((pre.closeSide m σ mood).openDb a m σ t).mbSidesOf m).length = (pre.mbSidesOf m).length ∧
+    (((pre.dropMailbox a m).openDb a m σ t).mbSidesOf m).length = 1 := by
+  have hs' : (pre.closeSide m σ mood).findMbSide m σ ≠ none := closeSide_findMbSide_ne_none.2 hs
+  obtain ⟨r, hr⟩ := Option.ne_none_iff_exists'.1 hs
+  obtain ⟨r', hr'⟩ := Option.ne_none_iff_exists'.1 hs'
+  refine ⟨?_, ?_, ?_⟩
+  · rw [openDb_mbSidesOf, hr]; simp
+  · rw [openDb_mbSidesOf, hr']; simp [closeSide_mbSidesOf_length]
+  · have hn : (pre.dropMailbox a m).findMbSide m σ = none := by
+      rw [findMbSide_eq_none]
+      intro r hr hk
+      exact ((mem_dropMailbox_mbSides pre a m).1 hr).2 hk.1
+    rw [openDb_mbSidesOf, hn, dropMailbox_mbSidesOf_self]; simp
 
 end Chan
 end Wormhole
